@@ -224,7 +224,7 @@ pub fn exec(toks: &[&str]) -> String {
         ["jtext", t] => {
             let text = match to_json(t) { Some(x) => x, None => return "bad-op".into() };
             match SlurmFile::from_str(&text) {
-                Ok(f) => format!("ok {}", hex(f.to_string().as_bytes())),
+                Ok(f) => format!("ok {} {}", hex(f.to_string().as_bytes()), hex(f.to_string_pretty().as_bytes())),
                 Err(_) => "err".into(),
             }
         }
